@@ -260,7 +260,7 @@ pub fn job(job: &Value) -> Value {
         Ok(s) => s,
         Err(e) => return json!({"error": e}),
     };
-    let colours = if name.starts_with("synthetic:") {
+    let colours = if name.starts_with("synthetic:") || g.unit_colors().approx_cardinality() > 1e9 {
         // fixed valuation patterns of the parameter variables (all false, all true, alternating, every third):
         // the first colours of the library's enumeration are all near the all-false corner
         let ctx = g.symbolic_context();
@@ -275,7 +275,11 @@ pub fn job(job: &Value) -> Value {
                         0 => false,
                         1 => true,
                         2 => i % 2 == 0,
-                        _ => i % 3 == 0,
+                        3 => i % 3 == 0,
+                        4 => (i * 7) % 11 < 5,
+                        5 => (i * 5) % 13 < 6,
+                        6 => (i / 3) % 2 == 0,
+                        _ => (i * i + pat) % 7 < 3,
                     },
                 );
             }
@@ -328,7 +332,47 @@ pub fn job(job: &Value) -> Value {
             ));
         }
     }
-    json!({"cases": colours.len(), "problems": problems, "text": text, "colours_total": total_colours, "colours_checked": colours.len(), "exhaustive": (colours.len() as f64) >= total_colours, "variables": g.num_vars(), "wall_s": t0.elapsed().as_secs_f64()})
+    // colour sub-spaces (huge colour spaces only): fix the first k parameter variables by a pattern; the result on
+    // the graph restricted to that sub-space must be the sub-space's part of the parametrised result ("the answer for
+    // a colour never depends on which other colours the model admits", checked for whole blocks of colours)
+    let mut subspaces = 0u64;
+    if total_colours > 1e6 {
+        let ctx = g.symbolic_context();
+        let pv = ctx.parameter_variables().clone();
+        for pat in 0..3usize {
+            for k in [1usize, 3, 6, 10, 16, 24, 36, 48] {
+                if k > pv.len() {
+                    continue;
+                }
+                let mut val = biodivine_lib_bdd::BddPartialValuation::empty();
+                for (i, v) in pv.iter().take(k).enumerate() {
+                    val.set_value(*v, match pat { 0 => i % 2 == 0, 1 => (i * 7) % 11 < 5, _ => i % 3 != 0 });
+                }
+                let sub = GraphColors::new(ctx.bdd_variable_set().mk_conjunctive_clause(&val), ctx).intersect(g.unit_colors());
+                if sub.is_empty() {
+                    continue;
+                }
+                let gs = g.restrict(&g.unit_colored_vertices().intersect_colors(&sub));
+                match mc::model_check_formula_dirty(text, &gs) {
+                    Ok(rs) => {
+                        subspaces += 1;
+                        let want = param.intersect_colors(&sub);
+                        if rs.as_bdd() != want.as_bdd() && problems.len() < 4 {
+                            problems.push(format!(
+                                "model {name}, formula {}: on the graph restricted to the {} colours that fix the first {k} parameter variables (pattern {pat}) the result has {} elements, that part of the parametrised result has {}",
+                                crate::report::truncate(text, 80),
+                                sub.approx_cardinality(),
+                                rs.approx_cardinality(),
+                                want.approx_cardinality()
+                            ));
+                        }
+                    }
+                    Err(e) => problems.push(format!("restricted graph: {e}")),
+                }
+            }
+        }
+    }
+    json!({"cases": colours.len() as u64 + subspaces, "colour_subspaces": subspaces, "problems": problems, "text": text, "colours_total": total_colours, "colours_checked": colours.len(), "exhaustive": (colours.len() as f64) >= total_colours, "variables": g.num_vars(), "wall_s": t0.elapsed().as_secs_f64()})
 }
 
 pub fn run(tier: &str) -> Result<Report, String> {
@@ -435,6 +479,11 @@ pub fn run(tier: &str) -> Result<Report, String> {
     // the library's enumeration (every 16384th) x five formulae over a single-state argument
     for fi in 0..(if tier == "quick" { 2 } else { 5 }) {
         jobs.push(json!({"kind": "c20big", "model": "synthetic:gated44", "erase": 0, "formula_index": fi, "stride": 1, "cap": 4}));
+
+    }
+    // a bundled model with ~2.9e17 colours (BDDs of intermediate sets exceed 2^16 nodes): colours picked by 8 valuation patterns
+    for fj in [1usize, 2, 5, 9, 10] {
+        jobs.push(json!({"kind": "c20big", "model": "large-colored-models/set1-tacas/tacas2_extended.aeon", "erase": 0, "formula_index": fj, "stride": 1, "cap": 8}));
     }
     let results: Vec<(Value, crate::jobs::JobResult)> = jobs.par_iter().map(|j| (j.clone(), crate::jobs::run(j, limit))).collect();
     let mut bm = vec![];
